@@ -204,3 +204,27 @@ def eq_everywhere(a, b):
     idx = [z3.Int(sv.uid("ei")) for _ in range(a.rank)]
     return sv.And(*[x == y for x, y in zip(a.shape, b.shape)],
                   z3.ForAll(idx, sv.Implies(in_box(a.shape, idx), a.at(tuple(idx)) == b.at(tuple(idx)))) if a.rank else a.at(()) == b.at(()))
+
+
+def ite_arr(c, a, b):
+    """if-then-else of two arrays of the same rank and dtype"""
+    if isinstance(a, SArr) and isinstance(b, SArr) and a.rank == b.rank and a.dtype == b.dtype and a.mask is None and b.mask is None:
+        return SArr(tuple(sv.If(c, x, y) for x, y in zip(a.shape, b.shape)), lambda idx, a=a, b=b, c=c: sv.If(c, a.at(idx), b.at(idx)), a.dtype,
+                    ident=None, units=a.units if a.units is b.units else None)
+    return None
+
+
+sv.ITE_HOOKS.append(ite_arr)
+
+
+def slice1(a, lo, hi):
+    """a[lo:hi] for a rank-1 array with 0 <= lo <= hi <= n (already normalised bounds)"""
+    return SArr((hi - lo,), lambda idx, a=a, lo=lo: a.at((idx[0] + lo,)), a.dtype, ident=None, units=a.units)
+
+
+def map2(a, b, fn, dtype=None):
+    return SArr(a.shape, lambda idx, a=a, b=b, fn=fn: fn(a.at(idx), b.at(idx)), dtype or a.dtype, ident=None, units=a.units)
+
+
+def map1(a, fn, dtype=None):
+    return SArr(a.shape, lambda idx, a=a, fn=fn: fn(a.at(idx)), dtype or a.dtype, ident=None, units=a.units)
